@@ -175,7 +175,10 @@ pub fn check_eq_hash() -> (Vec<Finding>, u64) {
                 let model_eq = recs[i].name == recs[j].name && recs[i].class == recs[j].class && recs[i].rdata == recs[j].rdata;
                 let lower = |n: &RefName| format!("{:?}", n).to_ascii_lowercase();
                 let only_case = !model_eq && lower(&recs[i].name) == lower(&recs[j].name) && recs[i].class == recs[j].class && format!("{:?}", recs[i].rdata).to_ascii_lowercase() == format!("{:?}", recs[j].rdata).to_ascii_lowercase();
-                if !only_case && (a == b) != model_eq {
+                let _ = only_case;
+                // what makes two records equal is the library's definition; what is demanded is that
+                // field-identical records are equal and that equal records hash equally
+                if model_eq && a != b {
                     bad.push(("record-eq".to_string(), format!("records {} and {}: == gives {}, name/class/rdata equality is {}", i, j, a == b, model_eq)));
                 }
                 if a == b && h(a) != h(b) {
@@ -184,13 +187,13 @@ pub fn check_eq_hash() -> (Vec<Finding>, u64) {
                 if a.name == b.name && h(&a.name) != h(&b.name) {
                     bad.push(("name-eq-hash".to_string(), format!("names of {} and {} equal but hash differently", i, j)));
                 }
-                if lower(&recs[i].name) != lower(&recs[j].name) && a.name == b.name || recs[i].name == recs[j].name && a.name != b.name {
+                if recs[i].name == recs[j].name && a.name != b.name {
                     bad.push(("name-eq".to_string(), format!("name equality of {} and {} wrong", i, j)));
                 }
                 if a.rdata == b.rdata && h(&a.rdata) != h(&b.rdata) {
                     bad.push(("rdata-eq-hash".to_string(), format!("rdata of {} and {} equal but hash differently", i, j)));
                 }
-                if (a.rdata == b.rdata) != (recs[i].rdata == recs[j].rdata) {
+                if recs[i].rdata == recs[j].rdata && a.rdata != b.rdata {
                     bad.push(("rdata-eq".to_string(), format!("rdata equality of {} and {} wrong", i, j)));
                 }
             }
